@@ -1,5 +1,6 @@
 import RedisVerif.Driver.C07
 import RedisVerif.Driver.C08
+import RedisVerif.Driver.C11
 
 open RedisVerif.Driver
 
@@ -23,4 +24,5 @@ def main (args : List String) : IO UInt32 := do
   match args with
   | ["C07"] => loop stdin stdout C07.step; return 0
   | ["C08"] => loopState stdin stdout C08.step (RedisVerif.Shard.init 0 false); return 0
+  | ["C11"] => loopState stdin stdout C11.step C11.init; return 0
   | _ => IO.eprintln "usage: rvdriver <property-id> < ops"; return 2
